@@ -305,11 +305,11 @@ func c04Run(c *vlib.Ctx, idx int) {
 	var wg sync.WaitGroup
 	for cl := 0; cl < p.Clients; cl++ {
 		wg.Add(1)
+		cr := rand.New(rand.NewSource(r.Int63() + int64(cl)*7919)) // one PRNG per client, seeded before the clients start
 		go func(cl int) {
 			defer wg.Done()
-			h.client(cl, rand.New(rand.NewSource(r.Int63()+int64(cl)*7919)))
+			h.client(cl, cr)
 		}(cl)
-		_ = r.Int63() // keep the parent's stream independent of scheduling
 	}
 	wg.Wait()
 	if s.CoreAlive() && !h.aborted {
@@ -910,6 +910,13 @@ func (h *c04Hist) evaluate() {
 			}
 		}
 		c.Count("snapshot_envs_judged", int64(len(live)))
+		for _, se := range sn.Envs {
+			for _, t := range se.Tasks {
+				if mt, found := mtasks[t]; found && mt.EnvID != se.ID {
+					c.Count("snapshot_tasks_claimed_from_another_environment", 1) // reuseUnlockedTasks at work
+				}
+			}
+		}
 		for i, a := range live {
 			for _, b := range live[i+1:] {
 				e, f := envs[a.ID], envs[b.ID]
